@@ -204,7 +204,7 @@ func (vm *VM) subRunAll(omitNil bool, tePath string, value reflect.Value, fn fun
 				return err
 			}
 		}
-		ptr := rvPtr(rv)
+		ptr := structAddr(rv)
 		if ptr == nil {
 			if omitNil {
 				return nil
@@ -978,7 +978,7 @@ func (t *TagExpr) Range(fn func(*ExprHandler) error) error {
 				keyPath := f.fieldSelector + "{k}"
 				for _, key := range v.MapKeys() {
 					if mapKeyStructVM != nil {
-						p := rvPtr(derefValue(key))
+						p := structAddr(derefValue(key))
 						if omitNil && p == nil {
 							continue
 						}
@@ -993,7 +993,7 @@ func (t *TagExpr) Range(fn func(*ExprHandler) error) error {
 						}
 					}
 					if mapOrSliceElemStructVM != nil {
-						p := rvPtr(derefValue(v.MapIndex(key)))
+						p := structAddr(derefValue(v.MapIndex(key)))
 						if omitNil && p == nil {
 							continue
 						}
@@ -1013,7 +1013,7 @@ func (t *TagExpr) Range(fn func(*ExprHandler) error) error {
 				// slice or array
 				for i := v.Len() - 1; i >= 0; i-- {
 					if mapOrSliceElemStructVM != nil {
-						p := rvPtr(derefValue(v.Index(i)))
+						p := structAddr(derefValue(v.Index(i)))
 						if omitNil && p == nil {
 							continue
 						}
